@@ -10,6 +10,6 @@ trap 'git -C /repo worktree remove --force "$wt" 2>/dev/null' EXIT
 git -C "$wt" apply "$patch" || { echo "patch does not apply"; exit 2; }
 cd /verif
 for p in "$@"; do
-  VERIF_REPO="$wt" VERIF_SCRATCH=/tmp/elvis-verif-mut$$ ./check "$p" quick > /tmp/mut-$p-$$.out 2>&1; rc=$?
+  VERIF_REPO="$wt" VERIF_SCRATCH=/tmp/elvis-verif-mut$$ VERIF_EVIDENCE_DIR=/tmp/elvis-verif-mut$$-evidence ./check "$p" quick > /tmp/mut-$p-$$.out 2>&1; rc=$?
   echo "== $p rc=$rc"; grep -E "^VIOLATION|^KNOWN-FINDING|^INCONCLUSIVE|^\[" /tmp/mut-$p-$$.out | cut -c1-300 | head -12
 done
